@@ -1987,6 +1987,8 @@ seq_t dtw_warping_paths_affinity_ndim(seq_t *wps,
     seq_t dtw_prev;
 
     DTWWps p = dtw_wps_parts(l1, l2, settings);
+    // Affinities are not squared distances: the penalty is used as given
+    p.penalty = settings->penalty;
 
     idx_t ri, ci, min_ci, max_ci, wpsi, wpsi_start;
 
@@ -2321,6 +2323,8 @@ seq_t dtw_warping_paths_affinity_ndim_euclidean(seq_t *wps,
     seq_t dtw_prev;
 
     DTWWps p = dtw_wps_parts(l1, l2, settings);
+    // Affinities are not squared distances: the penalty is used as given
+    p.penalty = settings->penalty;
 
     idx_t ri, ci, min_ci, max_ci, wpsi, wpsi_start;
 
